@@ -316,14 +316,41 @@ def check(run):
     run.check(not swaps, 'R-ROLE', 'PSD: the source axis is MOVED to the requested position, the other leading axes keep their order', fn.loc(), '',
               'the source axis is exchanged (swapaxes) with a leading axis: for more than one leading axis the leading axes are permuted', construct=f'R-ROLE::{Q}::source-axis-swapped')
     okr = bool(rolls)
+    undecided_guard = None
     for e in rolls:
         ok1 = False
         for c, pol in e.guards:
             if c.op == 'cmp' and c.args[0] == 'Lt' and axis_param(c.args[1]) == 'source_dim' and const_val(c.args[2]) == -2 and pol:
                 ok1 = True
+        if not ok1:
+            # the same condition in another spelling (source_dim % ndim < ndim - 2): decided by evaluating the guards that mention source_dim for every rank 3..5 and
+            # every admissible value of the parameter; a guard that cannot be folded leaves the rule undecided
+            from ..inteval import int_eval, UNKNOWN
+            rel = [(c, pol) for c, pol in e.guards if any(x.op == 'param' and x.args[0] == 'source_dim' for x in walk_terms(c, into_mu=False))]
+            verdict = True if rel else False
+            for n_ in (3, 4, 5):
+                for v_ in range(-n_, n_):
+                    env_ = {'source_dim': v_, 'sensor_dim': -2, 'time_dim': -1, ('ndim', 'observation'): n_, ('ndim', 'mask'): n_}
+                    vals = [int_eval(c, env_) for c, _ in rel]
+                    if any(x is UNKNOWN or not isinstance(x, (bool, int)) for x in vals):
+                        verdict = None
+                        break
+                    taken = all(bool(x) == pol for x, (_, pol) in zip(vals, rel))
+                    if taken != ((v_ % n_ - n_) < -2):
+                        verdict = False
+                        break
+                if verdict is not True:
+                    break
+            if verdict is None:
+                undecided_guard = e
+            ok1 = verdict is True
         okr = okr and ok1 and const_val(call_arg(e.term, 1)) == -3
-    run.check(okr, 'R-ROLE', 'PSD: source axis moved to the front only when source_dim < -2', fn.loc(), '', 'rollaxis of the source axis (-3) is not guarded by `source_dim < -2`',
-              construct=f'R-ROLE::{Q}::rollaxis-guard')
+    if undecided_guard is not None and not okr:
+        run.unresolved('R-ROLE', 'PSD: source axis moved to the front only when source_dim < -2', fn.loc(undecided_guard.node), 'the condition that guards the move of the source axis cannot be folded')
+        okr = None
+    if okr is not None:
+        run.check(okr, 'R-ROLE', 'PSD: source axis moved to the front only when source_dim < -2', fn.loc(), '', 'rollaxis of the source axis (-3) is not guarded by `source_dim < -2`',
+                  construct=f'R-ROLE::{Q}::rollaxis-guard')
     # defensive copy / no caller mutation: R-MUT restricted to this function
     ev = A.ev
     ctx = ev.entry(fn)
